@@ -32,6 +32,7 @@ type Program struct {
 	fnInfos     sync.Map
 	offs        sync.Map
 	written     map[string]bool
+	writtenFrozen map[string]bool
 	writtenGrew bool
 }
 
@@ -51,6 +52,8 @@ type Config struct {
 	MaxPaths    int
 	NumCPU      int
 	GlobalCoins bool // math/rand.Float32 (package level) is a forked coin; else always tails (level 0)
+	PreemptNamed bool // preemptive switches only from/to goroutines named by the harness (vThread); unnamed (internal worker) goroutines run at non-preemptive points
+	Deviations  int  // with SchedFree: how many times a non-default (not lowest-id) goroutine may be picked at a non-preemptive point; <0 = unlimited
 	SchedFree   bool // at blocking points the next thread is a free (forked) choice; else lowest id
 }
 
@@ -152,6 +155,7 @@ type Thread struct {
 	hits     map[string]int
 	ihits    map[ssa.Instruction]int
 	label    string // harness-given name (vThread)
+	started  bool   // has executed at least one instruction
 }
 
 type State struct {
@@ -195,6 +199,7 @@ type State struct {
 	nAllocs    int
 	backEdges  map[*ssa.BasicBlock]int
 	preemptLeft int
+	devLeft     int
 	concurrent bool // fine-grained phase active
 
 	reached  map[string]bool
